@@ -862,6 +862,10 @@ class _Formatter:
         aligned them in the source.
         """
         if prev.type == ERRORTOKEN and prev.string in ("\\\n", "\\\r\n"):
+            if self._macro_until_depth > 0 or self._macro_alias_line:
+                # a macro body is raw text: the continuation line's own
+                # leading white space is part of the argument
+                return self._src_lines[cur.start[0] - 1][: cur.start[1]]
             return self._indent_str * (self._indent_level + 1)
 
         s_line, s_col = self._real_end(prev)
